@@ -64,6 +64,8 @@ class Engine:
         self.allow_hash = False
         self.eigh_contract = False
         self.eigh_hook = None
+        self.exact_sqrt_consts = False
+        self.branch_oracle = None   # concolic guidance: callable(z3 bool) -> True / False / None (DESIGN 1.3)
         self.path_status = {}
 
     def fresh_name(self, base):
@@ -135,6 +137,14 @@ class Engine:
             self.decisions.append(d)
             self.pc.append(zc if d else z3.Not(zc))   # (redundant for implied decisions, harmless)
             return d
+        if self.branch_oracle is not None:
+            d = self.branch_oracle(zc)
+            if d is not None:
+                # the branch a concrete (floating-point) execution at this very input point takes: the other side is not
+                # explored (stated in the evidence as an oracle-guided path)
+                self.decisions.append(bool(d))
+                self.pc.append(zc if d else z3.Not(zc))
+                return bool(d)
         bt = self.branch_timeout_ms or self.timeout_ms
         rt, rf = self._feasible(zc, bt), None
         if rt == 'unsat':
@@ -343,6 +353,19 @@ class Engine:
         to = (info or {}).get('timeout_ms')
         if z3.is_true(zs):
             return Outcome(name, 'ok', None, info, list(self.decisions), 'trivial', trivial=True)
+        if z3.is_false(zs) and (info or {}).get('witnessed'):
+            # a constant-false obligation on a path that a concrete execution is known to take: any input of the path's
+            # (oracle-fixed) point is a counterexample; the model comes from the input assumptions alone and is replayed
+            s0 = z3.Solver()
+            s0.set('timeout', 20000)
+            for a in self.assumes:
+                s0.add(a)
+            t = time.time()
+            r0 = str(s0.check())
+            self.tq += time.time() - t
+            self.nq += 1
+            if r0 == 'sat':
+                return Outcome(name, 'cex', s0.model(), info, list(self.decisions), 'constant false on an oracle-guided path', sexpr='False')
         neg = z3.Not(z)
         if (info or {}).get('probe_first'):
             # purity obligations are polynomial identities in free constants: a point instantiation evaluates them at
@@ -366,6 +389,10 @@ class Engine:
             s0.set('timeout', int(to or self.timeout_ms))
             for h in hyp:
                 s0.add(h)
+            if (info or {}).get('witnessed'):
+                for a in self.assumes:       # input boxes / grid values (linear input assumptions) keep a refuting model inside the domain
+                    if _is_linear(a):
+                        s0.add(a)
             s0.add(neg)
             t = time.time()
             r0 = str(s0.check())
@@ -373,6 +400,57 @@ class Engine:
             self.nq += 1
             if r0 == 'unsat':
                 return Outcome(name, 'ok', None, info, list(self.decisions), 'standalone', sexpr=_short(zs))
+            if _DEBUG:
+                print('    [standalone %s -> %s]' % (name, r0), flush=True)
+            assigned = None
+            if r0 == 'sat':
+                m0 = s0.model()
+                if (info or {}).get('witnessed'):
+                    # prefer a generic refuting point (all free inputs non-zero and pairwise different)
+                    ins = [toz(v) for v in (info.get('inputs') or {}).values()]
+                    ins = [c for c in ins if z3.is_const(c) and z3.is_true(z3.simplify(m0.eval(c, model_completion=True) == 0))
+                           or z3.is_const(c)]
+                    fc = set(c.decl().name() for c in _free_consts(neg))
+                    ins = [c for c in ins if c.decl().name() in fc]
+                    if ins:
+                        s0.push()
+                        s0.set('timeout', 5000)
+                        s0.add(z3.Distinct(*ins) if len(ins) > 1 else z3.BoolVal(True))
+                        for c in ins:
+                            s0.add(c != 0)
+                        if str(s0.check()) == 'sat':
+                            m0 = s0.model()
+                        s0.pop()
+                assigned = {d.name(): m0[d] for d in m0.decls() if d.arity() == 0}
+            elif (info or {}).get('witnessed') and not hyp:
+                # hypothesis-free polynomial lemma the solver does not finish on: evaluate it at a few rational points (z3's own
+                # substitution + simplifier); a point where it is false refutes the lemma just like a model would
+                consts = _free_consts(neg)
+                for trial in range(3):
+                    sub = [(c, z3.RealVal('%d/%d' % (3 + (7 * i + 5 * trial) % 11, 4 + (3 * i + trial) % 7)) if c.sort() == z3.RealSort() else z3.IntVal(1 + i % 3))
+                           for i, c in enumerate(consts)]
+                    val = z3.simplify(z3.substitute(neg, *sub))
+                    if _DEBUG:
+                        print('    [point evaluation of %s: %d consts -> %s]' % (name, len(consts), _short(val, 80)), flush=True)
+                    if z3.is_true(val):
+                        assigned = {c.decl().name(): v for c, v in sub}
+                        r0 = 'sat'
+                        break
+            if r0 == 'sat' and (info or {}).get('witnessed') and not name.startswith(('twin', 'lemma:')):
+                # the lemma is refutable as a statement about free variables; on an oracle-guided path the input point is known
+                # except for the free inputs, which are taken from the refuting model: a CANDIDATE counterexample, decided by
+                # the replay on the real code (not reproducing -> the obligation stays inconclusive, flagged 'soft')
+                s1 = z3.Solver()
+                s1.set('timeout', 20000)
+                for a in self.assumes:
+                    s1.add(a)
+                for nm, v in (info.get('inputs') or {}).items():
+                    zv = toz(v)
+                    if z3.is_const(zv) and zv.decl().name() in assigned:
+                        s1.add(zv == assigned[zv.decl().name()])
+                if str(s1.check()) == 'sat':
+                    info = dict(info, soft=True)
+                    return Outcome(name, 'cex', s1.model(), info, list(self.decisions), 'standalone lemma refuted; candidate input', sexpr=_short(zs))
             if (info or {}).get('standalone') == 'only':
                 st = 'cex' if (r0 == 'sat' and name.startswith('twin:')) else 'unknown'
                 return Outcome(name, st, None, info, list(self.decisions), 'standalone query %s' % r0, sexpr=_short(zs))
@@ -405,6 +483,20 @@ z3.set_option(max_args=12, max_lines=8, max_depth=10, max_visited=400, max_width
 
 _LIN_CACHE = {}
 _INT_CACHE = {}
+
+
+def _free_consts(e):
+    out, seen, todo = [], set(), [e]
+    while todo:
+        t = todo.pop()
+        i = t.get_id()
+        if i in seen:
+            continue
+        seen.add(i)
+        if z3.is_const(t) and t.decl().kind() == z3.Z3_OP_UNINTERPRETED:
+            out.append(t)
+        todo.extend(t.children())
+    return sorted(out, key=lambda c: c.decl().name())
 
 
 def _has_int(e):
